@@ -14,7 +14,10 @@ use std::fmt::{self, Display, Formatter};
 
 use async_graphql_value::Name;
 pub use parse::{parse_query, parse_schema};
-use pest::{RuleType, error::LineColLocation};
+use pest::{
+    RuleType,
+    error::{InputLocation, LineColLocation},
+};
 pub use pos::{Pos, Positioned};
 use serde::{Serialize, Serializer};
 
@@ -136,6 +139,24 @@ impl Display for Error {
 }
 
 impl std::error::Error for Error {}
+
+impl Error {
+    /// Like the `From` implementation, but the lines and columns are counted in `input` as they
+    /// are for the syntax tree (pest does not take a lone `\r` for a line terminator).
+    pub(crate) fn from_pest<R: RuleType>(err: pest::error::Error<R>, input: &str) -> Self {
+        let mut pc = pos::PositionCalculator::new(input);
+        let (start, end) = match err.location {
+            InputLocation::Pos(at) => (pc.step_to(at), None),
+            InputLocation::Span((start, end)) => (pc.step_to(start), Some(pc.step_to(end))),
+        };
+
+        Error::Syntax {
+            message: err.to_string(),
+            start,
+            end,
+        }
+    }
+}
 
 impl<R: RuleType> From<pest::error::Error<R>> for Error {
     fn from(err: pest::error::Error<R>) -> Self {
